@@ -17,6 +17,13 @@ _HDR_TYPES = {'npfloat': np.float64, 'npint32': np.int32, 'npint64': np.int64, '
               'npstr': np.str_}
 
 
+# strings built from the vocabulary of the format itself, all within what the format can express (no double quote, no
+# leading '{'; the array-element pool additionally drops everything holding a '}')
+FORMAT_WORDS = ['typedef', 'enum', 'struct', 'typedef struct', 'typedef enum', 'char', 'int', ';', 'x;', '};', '}', 'a}', 'x{',
+                'a{b}', 'a{{}}', ';;{{{}}', 'x{{{}}', 'a{ {{}}', 'b{{ }}', 'q{}', 'q{ }', 'T;', 'MYSTRUCT', 'symbols', 'a {{}} b',
+                '[3]', 'x[2]', '<3>', '\\{', 'end\\ x', '0x10', '1e', 'nan', '-', '+', '# typedef struct {', 'enum {A} T;']
+
+
 def _hdr_text(v, vt):
     """The accepted text forms of a header value: str() of it, or format() of it where that differs (numpy's float32
     formats through Python float, '0.10000000149011612' for float32(0.1): the same value, spelled exactly)."""
@@ -70,7 +77,7 @@ class C01(Check):
         k = 1 if q else 40
         return {'mixed': 500 * k, 'string_torture': 500 * k, 'numeric_extremes': 300 * k, 'zero_rows': 150 * k,
                 'structname_torture': 300 * k, 'headers': 200 * k, 'table_api': 200 * k, 'byteorder': 100 * k,
-                'refusal': 100 * k, 'common_names': 250 * k}
+                'refusal': 100 * k, 'common_names': 250 * k, 'format_tokens': 300 * k}
 
     # ------------------------------------------------------------------ gen
     def gen(self, cls, rng, i):
@@ -137,11 +144,24 @@ class C01(Check):
                 for c in cols:
                     if c['kind'] in ('S', 'U') and rng.random() < 0.7:
                         c['kind'], c['width'] = rng.choice(M.NUMKINDS), 0
-            if cls == 'string_torture':
+            if cls in ('string_torture', 'format_tokens'):
                 for c in cols:
                     if c['kind'] in M.NUMKINDS and rng.random() < 0.6:
                         c['kind'], c['width'] = 'S', rng.randint(1, 12)
             rows = [[M.gen_cell(rng, c, enums, extreme, torture) for c in cols] for _ in range(nrows)]
+            if cls == 'format_tokens':
+                # cells made of the format's own vocabulary (F-Y6, F-Y7): words of type definitions, brace groups that look like
+                # the empty-string token, statement ends, this file's structure names - everything the format can express
+                pool = FORMAT_WORDS + [names[t], names[0].upper(), names[-1].lower() + ';']
+                for ci, c in enumerate(cols):
+                    if c['kind'] not in ('S', 'U'):
+                        continue
+                    c['width'] = max(c['width'], max(len(w) for w in pool))
+                    for r in rows:
+                        if c['alen']:
+                            r[ci] = [rng.choice([w for w in pool if '}' not in w]) if rng.random() < 0.6 else v for v in r[ci]]
+                        elif rng.random() < 0.7:
+                            r[ci] = rng.choice(pool)
             tab = {'name': names[t], 'cols': cols, 'rows': rows}
             M.fix_last_column(tab)
             tables.append(tab)
